@@ -266,11 +266,11 @@ Definition opt_get (rs : renames) (t : option str) (c : str) : option str :=
 
 (* acl.perform_acl_rule_renames: rec.X / newRec.X belong to the table of the rule's resource, user.A.X to the
    lookup table of the user attribute named A; nothing else is renamed *)
-Definition acl_renamer (rs : renames) (rule_table : option str) (attr_tables : list (str * str)) : renamer :=
+Definition acl_renamer (rs : renames) (rule_table : option str) (attr_table : str -> option str) : renamer :=
   fun ty name extra =>
     match ty with
     | RecCol => opt_get rs rule_table name
-    | UserAttrCol => match extra with Some a => opt_get rs (assoc_str a attr_tables) name | None => None end
+    | UserAttrCol => match extra with Some a => opt_get rs (attr_table a) name | None => None end
     | _ => None
     end.
 
@@ -373,7 +373,7 @@ Inductive renamer_spec :=
 Definition renamer_of (s : renamer_spec) : renamer :=
   match s with
   | RTable tbl => table_renamer tbl
-  | RAcl rs t a => acl_renamer rs t a
+  | RAcl rs t a => acl_renamer rs t (fun n => assoc_str n a)
   | RDc rs rt st => dc_renamer rs rt st
   | RTrigger rs t => trigger_renamer rs t
   end.
@@ -408,3 +408,93 @@ Definition c17_colids_ok (c : renames * str * str * option str) : bool :=
 
 Definition c17_lookup_ok (c : renames * option str * option str * option str) : bool :=
   match c with (rs, t, lookup, impl) => opt_str_eqb (rename_lookup rs t lookup) impl end.
+
+(* ------------------------------------------------------------------------------------------- *)
+(* acl.perform_acl_rule_renames as a function of the rows of _grist_ACLResources / _grist_ACLRules.
+   Opaque (parameters): JSON access to userAttributes, the table of a resource row, process_renames with the ACL
+   collector, parse_predicate_formula_json.  harness/pr2v.py generates the same function from the source
+   (GristGen.PerformAcl_gen.gen_perform_acl); Proofs/PerformAcl_bridge.v proves them equal. *)
+Record resource := { res_tableId : str; res_colIds : str }.
+Record rule := { rule_resource : Z; rule_aclFormula : str; rule_userAttributes : str }.
+Definition upd := list (string * str).                    (* {column: new value} *)
+Definition gsubject := (str * str * option str)%type.      (* NamedEntity: type, name, extra *)
+Definition s_type (s : gsubject) : str := fst (fst s).
+Definition s_name (s : gsubject) : str := snd (fst s).
+Definition s_extra (s : gsubject) : option str := snd s.
+
+Record acl_prims := {
+  info : Type;                                              (* json.loads(...) of a JSON object *)
+  json_loads : str -> option info;                          (* None: not JSON / not an object (an exception) *)
+  info_get : info -> string -> option str;                  (* rule_info.get(key) *)
+  info_set : info -> string -> str -> info;                 (* rule_info[key] = value *)
+  json_dumps : info -> str;
+  resource_tableId : Z -> str;                              (* aclResources.table.get_record(int(ref)).tableId *)
+  process_renames_acl : str -> (gsubject -> option str) -> str;
+  parse_json : str -> str                                   (* parse_predicate_formula_json *)
+}.
+
+Definition str_truthy (s : str) : bool := negb (is_empty s).
+Definition ostr_truthy (o : option str) : bool := match o with Some s => str_truthy s | None => false end.
+Definition ostr_or (o : option str) (c : str) : str :=      (* o or c *)
+  match o with Some n => if is_empty n then c else n | None => c end.
+Definition renames_get_oo (rs : renames) (t c : option str) : option str :=
+  match t, c with Some t', Some c' => renames_get rs t' c' | _, _ => None end.
+
+(* a dict whose keys and values may be None; the newest binding of a key is found first *)
+Definition odict := list (option str * option str).
+Definition odict_set (d : odict) (k v : option str) : odict := (k, v) :: d.
+Fixpoint odict_get (d : odict) (k : option str) : option str :=
+  match d with
+  | [] => None
+  | (k', v) :: t => if opt_str_eqb k k' then v else odict_get t k
+  end.
+
+(* pass 1: user attribute name -> lookup table, from EVERY rule with userAttributes *)
+Definition acl_attr_tables (P : acl_prims) (rules : list rule) : odict :=
+  fold_left (fun d r =>
+    if str_truthy (rule_userAttributes r) then
+      match json_loads P (rule_userAttributes r) with
+      | Some i => odict_set d (info_get P i "name") (info_get P i "tableId")
+      | None => d
+      end
+    else d) rules [].
+
+(* the renamer handed to process_renames for one rule *)
+Definition acl_subject_renamer (rs : renames) (rule_table : str) (d : odict) : gsubject -> option str :=
+  fun subject =>
+    if str_eqb (s_type subject) (lit "recCol") then renames_get rs rule_table (s_name subject)
+    else if str_eqb (s_type subject) (lit "userAttrCol")
+         then renames_get_oo rs (odict_get d (s_extra subject)) (Some (s_name subject))
+         else None.
+
+Definition acl_lookup_update (P : acl_prims) (rs : renames) (r : rule) : list (rule * upd) :=
+  if str_truthy (rule_userAttributes r) then
+    match json_loads P (rule_userAttributes r) with
+    | Some i =>
+        match rename_lookup rs (info_get P i "tableId") (info_get P i "lookupColId") with
+        | Some n => [(r, [("userAttributes"%string, json_dumps P (info_set P i "lookupColId" n))])]
+        | None => []
+        end
+    | None => []
+    end
+  else [].
+
+Definition acl_formula_update (P : acl_prims) (rs : renames) (d : odict) (r : rule) : list (rule * upd) :=
+  if str_truthy (rule_aclFormula r) then
+    let new := process_renames_acl P (rule_aclFormula r)
+                 (acl_subject_renamer rs (resource_tableId P (rule_resource r)) d) in
+    if str_eqb new (rule_aclFormula r) then []
+    else [(r, [("aclFormula"%string, new); ("aclFormulaParsed"%string, parse_json P new)])]
+  else [].
+
+Definition acl_resource_update (rs : renames) (r : resource) : list (resource * upd) :=
+  match rename_colids rs (res_tableId r) (res_colIds r) with
+  | Some new => [(r, [("colIds"%string, new)])]
+  | None => []
+  end.
+
+Definition perform_acl_model (P : acl_prims) (rs : renames) (resources : list resource) (rules : list rule)
+  : list (resource * upd) * list (rule * upd) :=
+  (flat_map (acl_resource_update rs) resources,
+   flat_map (acl_lookup_update P rs) rules ++
+   flat_map (acl_formula_update P rs (acl_attr_tables P rules)) rules).
